@@ -142,6 +142,17 @@ func decCases(o *hlib.Out, format string, cases []*fcase) map[*fcase]string {
 			o.Class(c.class)
 		}
 		o.Stat("dec_"+format, 1)
+		if i == 1 {
+			tr := strings.Join(c.truth, " ")
+			if len(tr) > 160 {
+				tr = tr[:160] + "…"
+			}
+			ob := obs
+			if len(ob) > 200 {
+				ob = ob[:200] + "…"
+			}
+			o.Sample(fmt.Sprintf("dec %s <%d bytes> %s => %s", format, len(c.file), tr, ob))
+		}
 	}
 	return base
 }
@@ -340,14 +351,14 @@ func main() {
 		ncor   int // files offered for corruption
 		want   int // positions per large region
 	}{
-		{"gzip", genGzip, pick(96, 720), pick(10, 60), pick(24, 96)},
-		{"tar", genTar, pick(72, 480), pick(2, 8), pick(16, 512)},
-		{"zip", genZip, pick(72, 480), pick(2, 8), pick(8, 32)},
-		{"png", genPng, pick(120, 720), pick(8, 40), pick(24, 512)},
-		{"gif", genGif, pick(40, 300), 0, 0},
-		{"wav", genWav, pick(72, 360), 0, 0},
-		{"ogg_page", genOgg, pick(44, 220), pick(6, 30), pick(40, 512)},
-		{"bzip2", genBzip2, pick(39, 180), pick(3, 12), pick(24, 96)},
+		{"gzip", genGzip, pick(96, 480), pick(10, 36), pick(24, 64)},
+		{"tar", genTar, pick(72, 360), pick(2, 6), pick(16, 128)},
+		{"zip", genZip, pick(72, 360), pick(2, 6), pick(8, 32)},
+		{"png", genPng, pick(120, 480), pick(8, 20), pick(24, 128)},
+		{"gif", genGif, pick(40, 240), 0, 0},
+		{"wav", genWav, pick(72, 288), 0, 0},
+		{"ogg_page", genOgg, pick(44, 220), pick(6, 16), pick(40, 256)},
+		{"bzip2", genBzip2, pick(39, 117), pick(3, 8), pick(24, 64)},
 	}
 	off := int(r.U64() % 1000)
 	for _, g := range gens {
